@@ -348,15 +348,24 @@ def R8_binders(ctx, rid, core):
     cfv = core.hir_fn(CORE + "expressions::collect_free_variables")
     inl = core.hir_fn(A2S + "expr_to_source_with_scope")
     from rules.c04 import innermost_ast_arm
+    def construct_arm(g):
+        """the arm of the function's own dispatch on the node kind (the outermost one): a match on the kind of a *member* inside it
+        (`match &stmt.node { Assignment {..} => .. }` in the do-block arm) does not make the member kind a binder of its own"""
+        for gg in g:
+            if gg[0] == "arm":
+                vs = [v for v in H.pat_variants(gg[1]["pat"]) if "ast::Expr::" in v or "ast::RecordKey::" in v]
+                if vs:
+                    return "|".join(sorted(v.replace(CORE + "ast::", "") for v in vs))
+        return None
     b_cfv = set()
     for n, e, g in scope.sites(cfv["body"], lambda n: H.kind(n) == "MethodCall" and n["name"] in ("insert", "extend") and "HashSet" in n.get("recv_ty", ""), S.Env()):
-        b_cfv.add(innermost_ast_arm(g))
+        b_cfv.add(construct_arm(g))
     b_inl = {}
     # the inliner is whichever printer of the module narrows the captured scope (the function itself, or a method of a printer struct)
     inl_fns = [inl] + [core.hir_fn(nm_) for nm_ in sorted(printer_fns(core)) if nm_.startswith(A2S) and nm_ != A2S + "expr_to_source_with_scope"]
     for f_ in inl_fns:
         for n, e, g in scope.sites(f_["body"], lambda n: H.kind(n) == "MethodCall" and n["name"] in ("shift_remove", "swap_remove", "remove", "retain") and "IndexMap" in n.get("recv_ty", ""), S.Env()):
-            lab = innermost_ast_arm(g)
+            lab = construct_arm(g)
             if lab is not None:
                 b_inl.setdefault(lab, []).append((n, g))
     # a binder whose arm hands the recursive printer a scope of its own (built some other way than by removing names from a copy:
